@@ -6,6 +6,7 @@
 //
 //   explore_vec --explore --K 1 --L 4 [--reloc 0|1|2] [--fault] [--deadline s] [--crumb file] [--opts ...]
 //   explore_vec --replay "<op> <op> ..." [--reloc n] [--faultk k]      (last op is the checked transition)
+#include <sanitizer/asan_interface.h>
 #include <fcntl.h>
 #include <sys/mman.h>
 #include <unistd.h>
@@ -46,6 +47,7 @@ static void pool_init(World &w) {
   for (int i = 0; i < w.K; ++i) {
     Slot &s = w.slot[i];
     s.cur = 0;
+    ASAN_UNPOISON_MEMORY_REGION(s.buf, sizeof s.buf);
     ::new (s.raw()) V();
     s.alive = true;
     s.birth = s.v().data();
@@ -67,8 +69,10 @@ static void relocate_all(World &w) {
   if constexpr (amc::is_trivially_relocatable<V>::value) {
     for (int i = 0; i < w.K; ++i) {
       Slot &s = w.slot[i];
+      ASAN_UNPOISON_MEMORY_REGION(s.other(), sizeof(V));
       std::memcpy(s.other(), s.raw(), sizeof(V));
       std::memset(s.raw(), 0xEE, sizeof(V));
+      ASAN_POISON_MEMORY_REGION(s.raw(), sizeof(V));  // the source is abandoned: any later access to it is a defect
       s.cur ^= 1;
       s.birth = s.v().data();  // a relocated FixedCapacityVector legitimately has a new begin()
     }
@@ -290,6 +294,8 @@ static RunResult run_once(const std::vector<Op> &hist, const Op *op, int K, int 
   r.key_before = key_of(w);
   if (enabled) enumerate(w, o, *enabled);
   if (op) {
+    // C14: run every const observer BEFORE the relocation as well (anything a const member might cache is then set)
+    if (g_reloc >= 1) observe(w, "C14");
     if (g_reloc >= 1) relocate_all(w);
     g_final = true;
     g_overlimit = false;
